@@ -113,11 +113,14 @@ def handle (inp out : Sexp) : CaseResult :=
       let nontrivial := match mo with
         | some mo => mo.map.any fun e => match e with | .rewritten .. => true | _ => false
         | none => false
-      { agree := agrees p sel obs mo,
-        specOk := specCheck p sel obs mo,
+      let agree := agrees p sel obs mo
+      let specOk := specCheck p sel obs mo
+      { agree := agree,
+        specOk := specOk,
         nontrivial := nontrivial,
         tags := tags,
-        detail := s!"model={repr (expandProgramWithMap p sel)} impl={out}" }
+        -- only built on failure (the structure is strict)
+        detail := if agree && specOk then "" else s!"model={repr (expandProgramWithMap p sel)} impl={out}" }
 
 end QV.C21
 
